@@ -146,6 +146,13 @@ def generate(rng, tier):
 
 def _splits(cv, es, ns):
     X = np.column_stack([es, ns])
+    # history: the same cross-validator object is first used on a different cloud; it must not remember anything
+    try:
+        with warnings.catch_warnings():
+            warnings.simplefilter("ignore")
+            list(cv.split(X[::-1] * 2.0 + 5.0))
+    except Exception:  # noqa: BLE001
+        pass
     out = []
     for tr, te in cv.split(X):
         out.append([[int(v) for v in tr], [int(v) for v in te]])
